@@ -553,10 +553,10 @@ def jobs(tier):
     rng = random.Random(int(os.environ.get("VERIF_SEED", "0") or 0) * 7919 + (1 if tier == "quick" else 2))
     cheap = [n for n in names if "list" not in n and n not in ("open_rx_pipe0",)]
     for _ in range(24 if tier == "quick" else 200):
-        seqs.append(tuple(rng.choice(cheap) for _ in range(5 if tier == "quick" else 7)))
+        seqs.append(tuple(rng.choice(cheap) for _ in range(5 if tier == "quick" else 6)))
     for s in seqs:
-        out.append(Job("history", h_history, dict(calls=list(s), pre="por"), cost=len(s) ** 2, max_paths=20000,
-                       shards=(1 if len(s) < 5 else 4)))
+        out.append(Job("history", h_history, dict(calls=list(s), pre="por"), cost=len(s) ** 2, max_paths=(20000 if tier == "quick" else 40000),
+                       shards=(1 if len(s) < 5 else 4 if tier == "quick" else 8)))
     for n in names:
         out.append(Job("history-symbolic-prestate", h_history, dict(calls=[n], pre="sym"), cost=2))
     return out
@@ -569,7 +569,7 @@ META = {
                  "(6 groups), 6 triples and 24 random histories of depth 5 (drawn with VERIF_SEED; arguments symbolic); integer arguments symbolic over [-65536, 65536] (narrower where the domain is "
                  "tiny: data_rate -3..252, pa_level -40..20, pipe numbers -3..8, payload lengths -300..300), 5/3/1/0-byte "
                  "symbolic addresses, list forms with 2-3 symbolic elements and lengths 0, 3, 7; bools enumerated",
-        "thorough": "all 49x49 ordered pairs, all triples inside the PIPES, FEATURE and CONFIG groups, 200 random histories of depth 7",
+        "thorough": "all 49x49 ordered pairs, all triples inside the PIPES, FEATURE and CONFIG groups, 200 random histories of depth 6",
     },
     "outside": ["nRF24L01 non-plus branch of start_carrier_wave() (documented to overwrite registers behind the cache)",
                 "histories deeper than 3 calls", "integer arguments beyond +-65536", "print_details()/print_pipes()",
